@@ -108,6 +108,7 @@ Definition everr_eqb (a b : everr) : bool :=
   | ErrUnknownFunction x, ErrUnknownFunction y => text_eqb x y
   | ErrArgCount, ErrArgCount | ErrInterpolate, ErrInterpolate | ErrNegOverflow, ErrNegOverflow | ErrLiteral, ErrLiteral => true
   | ErrOverflow x, ErrOverflow y => binop_eqb x y
+  | ErrMixedOp x, ErrMixedOp y => binop_eqb x y
   | _, _ => false
   end.
 Definition dkind_eqb (a b : dkind) : bool :=
@@ -415,8 +416,10 @@ Definition scope_symbol (name : ident) (sp : span) : M unit :=
 Definition enter_scope (scope : ident) (c : ctx) : ctx :=
   let p := current_scope c ++ [scope] in
   let (t1, nx) := ensure_index (symbols c) root p in
-  set_scope (set_symbols c t1) p nx.
-Definition leave_scope (old_scope : ipath) (old_scope_nx : nat) (c : ctx) : ctx := set_scope c old_scope old_scope_nx.
+  set_macro_id (set_scope (set_symbols c t1) p nx) 0.     (* 5239ce9: macro invocations are numbered per scope *)
+(* `old` = (old_scope_nx, old_macro_scope_id) *)
+Definition leave_scope (old_scope : ipath) (old : nat * nat) (c : ctx) : ctx :=
+  set_macro_id (set_scope c old_scope (fst old)) (snd old).
 
 Definition with_scope {A} (scope : ident) (add_symbols_for_block : option block) (f : M A) : M A :=
   c0 <- get ;;
@@ -424,7 +427,7 @@ Definition with_scope {A} (scope : ident) (add_symbols_for_block : option block)
   match add_symbols_for_block with Some b => scope_symbol t_minus (blk_lparen b) | None => ret tt end ;;;
   finally f
     (match add_symbols_for_block with Some b => scope_symbol t_plus (blk_rparen b) | None => ret tt end ;;;
-     modify (leave_scope (current_scope c0) (current_scope_nx c0))).
+     modify (leave_scope (current_scope c0) (current_scope_nx c0, next_macro_scope_id c0))).
 
 (* ------------------------------------------------------------------ emit_tokens / emit_token *)
 (* `for token in tokens { if let Err(result) = self.emit_token(token) { errors.extend(result) } }` *)
@@ -687,7 +690,10 @@ Definition emit_token_body (fuel : nat) (t : token) : M unit :=
           match emit_instruction m f value pc with
           | (bytes, None) => emit full_span bytes
           | (_, Some InstrPanic) => abort FPanic
-          | (bytes, Some TooFar) => emit full_span bytes ;;; err1 DBranchTooFar (Some mspan) [] [value]
+          | (bytes, Some TooFar) =>
+              (* the message names the target and the pc (`.. to reach $T from $P`): two passes report "the same errors"
+                 only if both agree *)
+              emit full_span bytes ;;; err1 DBranchTooFar (Some mspan) [] [value; match pc with Some p => p | None => value end]
           | (bytes, Some InvalidInstruction) => emit full_span bytes ;;; err1 DInvalidInstruction (Some full_span) [] []
           end
       end
@@ -829,7 +835,8 @@ Fixpoint register_segment_symbols (l : list (ident * segment)) : M unit :=
 Definition after_pass : M unit := c <- get ;; register_segment_symbols (segments c).
 
 Definition next_pass (c : ctx) : ctx :=
-  mkCtx (S (pass_idx c)) (map (fun ns => (fst ns, seg_reset (snd ns))) (segments c)) (current_segment c)
+  mkCtx (S (pass_idx c)) (map (fun ns => (fst ns, seg_reset (snd ns))) (segments c))
+        (match segments c with (n, _) :: _ => Some n | [] => None end)   (* acfe737: `self.segments.keys().next().cloned()` *)
         (symbols c) (undefined c) [] (current_scope c) (current_scope_nx c) 0%nat 0%nat [].
 
 Record options := mkOptions { opt_pc : Z; opt_constants : list (ident * Z) }.
